@@ -270,3 +270,25 @@ Proof.
     destruct (Hfl (rid r0) ltac:(lia) Hmp) as (s & x & y & Hs & Hx & Hy & Heq & _). rewrite Hsp in Hs. inversion Hs; subst s. cbn [equiv] in Heq. subst y.
     rewrite Hy, <- Pf. symmetry. exact Hx.
 Qed.
+
+(* ---------------- keepzero ---------------- *)
+(* the zero value of every documented Go type marshals *)
+Lemma zero_marshals k t : documented k t = true -> exists st, prim_marshal k t (g_zero t) = Ok st.
+Proof.
+  destruct k; destruct t as [| | | |t'|k'|fs]; try discriminate; try (destruct t' as [| | | |t2|k2|fs2]; try discriminate); try (destruct k'; try discriminate);
+    intros _; eexists; reflexivity.
+Qed.
+
+(* a struct field tagged keepzero is written whatever its value: the element becomes populated with what Marshal makes
+   of the value (for a zero value: the zero state above) *)
+Theorem marshal_keepzero_written S m d ft fv rest p st0 st :
+  it_keepzero (index_tag_of d) = true -> 2 <= it_id (index_tag_of d) ->
+  zlookup (it_id (index_tag_of d)) (ms_fields S) = Some (FPrim p) -> zlookup (it_id (index_tag_of d)) (m_fields m) = Some st0 ->
+  prim_marshal (ps_kind p) ft fv = Ok st ->
+  m_marshal_fields S m ((d, ft, fv) :: rest) =
+  m_marshal_fields S (with_present (with_fields m (zupdate (it_id (index_tag_of d)) st (m_fields m))) (zadd (it_id (index_tag_of d)) (m_present m))) rest.
+Proof.
+  intros Hk Hid Hs Hst Hm. cbn [m_marshal_fields]. replace (it_id (index_tag_of d) <? 0) with false by lia.
+  replace (it_id (index_tag_of d) =? 0) with false by lia. rewrite Hs, Hst, Hk. cbn [negb]. rewrite Bool.andb_false_r.
+  change (marshal_into 8 (FPrim p) st0 ft fv) with (prim_marshal (ps_kind p) ft fv). rewrite Hm. reflexivity.
+Qed.
